@@ -13,6 +13,9 @@ from . import spec as S
 from . import gen
 
 
+PRE_ORDERS = {}
+
+
 def concordant_orders(spec):
     """{einsum output: {tensor: [ranks in loop-concordant, partitioned order]}} computed with the compiler's IR"""
     from . import execute  # noqa: F401  (puts the repo on sys.path)
@@ -25,10 +28,13 @@ def concordant_orders(spec):
     for i, e in enumerate(spec["exprs"]):
         prog.add_einsum(i)
         per = {}
+        pre = {}
         for tensor in prog.get_equation().get_tensors():
             prog.apply_all_partitioning(tensor)
+            pre[tensor.root_name()] = list(tensor.get_ranks())      # partitioned, before the loop-order swizzle
             prog.get_loop_order().apply(tensor)
             per[tensor.root_name()] = list(tensor.get_ranks())
+        PRE_ORDERS[S.out_name(e)] = pre
         out[S.out_name(e)] = (per, list(prog.get_loop_order().get_ranks()))
         prog.reset()
     return out
@@ -338,9 +344,15 @@ def hardware_for(draw, spec, configs=("accel",), force=None):
             # (single swap merges of unpartitioned tensors only: that is all the compiler implements)
             cand = []
             for t, rs in per.items():
-                if t == out or t in outs or len(rs) < 2 or sorted(rs) != sorted(decl[t]) or rs == decl[t]:
+                if t == out or t in outs or len(rs) < 2:
                     continue
-                cand.append((t, list(decl[t]), list(rs)))
+                # the partitioned-but-not-yet-swizzled tensor only exists as a whole when all partitioning is static
+                static = "occupancy" not in repr((spec.get("partitioning") or {}).get(out, {}))
+                init = list(decl[t]) if sorted(rs) == sorted(decl[t]) else \
+                    (list(PRE_ORDERS.get(out, {}).get(t, [])) if static else [])
+                if sorted(init) != sorted(rs) or init == list(rs):
+                    continue
+                cand.append((t, init, list(rs)))
             if cand:
                 t, init, final = draw(st.sampled_from(cand))
                 entry.append({"component": names["mrg"], "bindings": [{"tensor": t, "init-ranks": init, "final-ranks": final}]})
